@@ -14,7 +14,8 @@ from .explorer import explore, prove, EX, Unsupported
 
 PID = "C13"
 _G = {}
-KINDS = ["refuse", "eof", "reset", "garbage_eof", "packet_eof", "partial_eof", "overlong_line"]
+KINDS = ["refuse", "unreachable", "eof", "reset", "garbage_eof", "packet_eof", "partial_eof", "overlong_line"]
+FAILED_CONNECTS = ("refuse", "unreachable")
 GARBAGE = {"ebyte": bytes(range(13)), "actisense": b"not a frame\r\n", "yacht": b"not a frame\r\n", "waveshare": bytes([1, 2, 3, 0xAA, 4, 5])}
 HORIZON = 90.0
 
@@ -22,7 +23,7 @@ HORIZON = 90.0
 LONG = 12       # consecutive refusals of the long-outage scenario: the retry delay must have stopped growing by then
 
 
-def scenario(R, N, kind, F, with_send_fault, forced=None):
+def scenario(R, N, kind, F, with_send_fault, forced=None, status="instant"):
     pkts = aio.sample_packets(N, kind, srcs=(1, 2, 3, 4, 5, 6, 7, 8))
     tr = {"conns": [], "states": [], "got": [], "hb": [], "max_rx": 0, "sent_fault": None, "writes": []}
 
@@ -36,6 +37,10 @@ def scenario(R, N, kind, F, with_send_fault, forced=None):
             tr["conns"].append((loop.time(), beh))
             if beh == "refuse":
                 raise ConnectionRefusedError("refused")
+            if beh == "unreachable":
+                # a connect that fails without being refused: no route to host / name resolution failure (plain OSError subclasses)
+                import socket
+                raise (OSError(113, "No route to host") if i % 2 == 0 else socket.gaierror(-3, "Temporary failure in name resolution"))
             r = asyncio.StreamReader()
             script = {}
             if beh == "healthy" and with_send_fault and tr["sent_fault"] is None:
@@ -72,6 +77,8 @@ def scenario(R, N, kind, F, with_send_fault, forced=None):
 
         async def st(s):
             tr["states"].append((loop.time(), s.name))
+            if status == "slow_connected" and s.name == "CONNECTED":
+                await asyncio.sleep(0.4)          # an application that does some I/O when the link comes up
         c.set_receive_callback(rx)
         c.set_status_callback(st)
 
@@ -120,7 +127,7 @@ def judge(tr, res, env, kind, with_send_fault):
     # every attempt that was refused is followed by another attempt after a positive, capped, non-decreasing delay
     run_delays = []
     for (t0, b0), (t1, b1) in zip(conns, conns[1:]):
-        if b0 == "refuse":
+        if b0 in FAILED_CONNECTS:
             d = t1 - t0
             if not d > 0:
                 problems.append("delay %.3f s after a refused attempt (must be > 0)" % d)
@@ -141,7 +148,7 @@ def judge(tr, res, env, kind, with_send_fault):
     names = [s for _, s in tr["states"]]
     if names and names[-1] == "CLOSED":
         names = names[:-1]          # the harness closes the client at the end
-    accepted = [b for _, b in conns if b != "refuse"]
+    accepted = [b for _, b in conns if b not in FAILED_CONNECTS]
     lost = len(accepted) - 1 + (0)
     exp = []
     for i, b in enumerate(accepted):
@@ -174,11 +181,12 @@ def _worker(job):
     rep = Report(PID, _G["tier"], 0, "fault_enumeration")
     kind, F, wsf = job[:3]
     forced = job[3] if len(job) > 3 else None
+    status = job[4] if len(job) > 4 else "instant"
     n = 0
     distinct = set()
 
     def h():
-        main = scenario(R, N, kind, F, wsf, forced)
+        main = scenario(R, N, kind, F, wsf, forced, status)
         res, env = aio.run(main)
         return res, env
     try:
@@ -196,8 +204,8 @@ def _worker(job):
             if problems:
                 what = problems[0]
                 rep.violation({"kind": "recovery", "client": kind, "what": what.split(":")[0][:50]},
-                              "%s client, fault schedule %r%s: %s" % (kind, sched, " + write error" if wsf else "", "; ".join(problems[:2])),
-                              {"kind": "schedule", "client": kind, "F": F, "send_fault": wsf, "decisions": [int(d) for d in pa.decisions], "forced": forced})
+                              "%s client, fault schedule %r%s%s: %s" % (kind, sched, " + write error" if wsf else "", " (status callback suspends on CONNECTED)" if status != "instant" else "", "; ".join(problems[:2])),
+                              {"kind": "schedule", "client": kind, "F": F, "send_fault": wsf, "decisions": [int(d) for d in pa.decisions], "forced": forced, "status": status})
             if len(rep.samples) < 1 and isinstance(res, dict):
                 rep.sample({"client": kind, "schedule": sched, "attempt_times": [round(t, 2) for t, _ in res["conns"]], "states": res["states"][:6]})
     except Unsupported as e:
@@ -268,6 +276,8 @@ def run(tier, seed):
     rep.outside = ["more than %d consecutive faults" % F, "OS-level socket behaviour", "faults injected between individual loop steps of a handshake (C14 covers close() there)"]
     jobs = [(k, F, False) for k in aio.CLIENTS] + [(k, 1 if tier == "quick" else 3, True) for k in aio.CLIENTS if k != "actisense"]
     # a long outage: the delay between attempts must have stopped growing (reached its cap), and the client still recovers
+    # a status callback that suspends while handling CONNECTED, with faults arriving meanwhile
+    jobs += [(k, 2, False, None, "slow_connected") for k in aio.CLIENTS]
     jobs += [(k, 0, False, ["refuse"] * LONG) for k in aio.CLIENTS] + [("ebyte", 0, False, ["eof", "refuse", "refuse", "reset"] + ["refuse"] * LONG)]
     parts = run_jobs(rep, _worker, jobs, timeout_s=800 if tier == "quick" else 4500)
     from .plain import plain
@@ -369,7 +379,7 @@ def replay_inproc(r):
             budget[0] = 0
             return orig_select(self, timeout)
         aio.FakeSelector.select = select
-        main = scenario(Rp, N, r["client"], r["F"], r["send_fault"], r.get("forced"))
+        main = scenario(Rp, N, r["client"], r["F"], r["send_fault"], r.get("forced"), r.get("status", "instant"))
         loader.TICK_HOOK[0] = None
         sys.settrace(tracer)
         try:
